@@ -192,10 +192,13 @@ bool SyntaxTree::operator==(const SyntaxTree& t2) const {
   return *root == *t2.root;
 }
 
-void SyntaxTree::Normalize(SyntaxTreeContext termFuncs) {
-  if (root != nullptr) {
-    Normalizer{ termFuncs }.Normalize(*root);
+bool SyntaxTree::Normalize(SyntaxTreeContext termFuncs) {
+  if (root == nullptr) {
+    return true;
   }
+  Normalizer normalizer{ termFuncs };
+  normalizer.Normalize(*root);
+  return !normalizer.IsTooDeep();
 }
 
 std::string AST2String::Apply(const SyntaxTree& ast) {
